@@ -562,6 +562,11 @@ class InterpBase:
       return z3.BoolVal(a.s == b.s)
     if isinstance(a, VClass) and isinstance(b, VClass):
       return z3.BoolVal(a.name == b.name)
+    if isinstance(a, VObj) and isinstance(b, VObj) and a is not b and not (a.frozen and a.cls in self.reg.value_classes):
+      # a heap object and its pre-state snapshot (old(...)) share the identity constant
+      ia, ib = a.f.get('__id__'), b.f.get('__id__')
+      if ia is not None and ib is not None:
+        return ia.t == ib.t
     return z3.BoolVal(a is b)
 
   def ite(self, c, a, b):
